@@ -555,3 +555,32 @@ mod tests {
         assert!(receivers[0].1.is_some());
     }
 }
+
+#[cfg(feature = "verif-hooks")]
+impl PubSubManager {
+    /// Read-only copy of the three subscription tables, sorted:
+    /// (channel -> conns, pattern -> conns, conn -> (channels, patterns))
+    pub fn verif_snapshot(&self) -> (Vec<(Vec<u8>, Vec<u64>)>, Vec<(Vec<u8>, Vec<u64>)>, Vec<(u64, Vec<Vec<u8>>, Vec<Vec<u8>>)>) {
+        let conn_subs = self.connections.lock().unwrap();
+        let channels = self.channels.lock().unwrap();
+        let patterns = self.patterns.lock().unwrap();
+        let flat = |m: &HashMap<Vec<u8>, HashSet<u64>>| {
+            let mut v: Vec<(Vec<u8>, Vec<u64>)> = m.iter().map(|(k, s)| {
+                let mut ids: Vec<u64> = s.iter().cloned().collect();
+                ids.sort();
+                (k.clone(), ids)
+            }).collect();
+            v.sort();
+            v
+        };
+        let mut conns: Vec<(u64, Vec<Vec<u8>>, Vec<Vec<u8>>)> = conn_subs.iter().map(|(id, info)| {
+            let mut c: Vec<Vec<u8>> = info.channels.iter().cloned().collect();
+            let mut p: Vec<Vec<u8>> = info.patterns.iter().cloned().collect();
+            c.sort();
+            p.sort();
+            (*id, c, p)
+        }).collect();
+        conns.sort();
+        (flat(&channels), flat(&patterns), conns)
+    }
+}
